@@ -135,8 +135,14 @@ def impl(t):
         date = Pm.LocalDate._ctor(days_since_epoch=d, calendar=c)
         T = Pm.IsoDayOfWeek(tg)
         from pyoda_time import DateAdjusters
-        return ints(int(date.day_of_week), date.next(T)._days_since_epoch - d, date.previous(T)._days_since_epoch - d,
-                    DateAdjusters.next_or_same(T)(date)._days_since_epoch - d, DateAdjusters.previous_or_same(T)(date)._days_since_epoch - d)
+
+        def g(fn):
+            try:
+                return str(fn()._days_since_epoch - d)
+            except (OverflowError, ValueError):
+                return "!range"
+        return " ".join([str(int(date.day_of_week)), g(lambda: date.next(T)), g(lambda: date.previous(T)),
+                         g(lambda: DateAdjusters.next_or_same(T)(date)), g(lambda: DateAdjusters.previous_or_same(T)(date))])
     if op == "wd.nth":
         f, dim, occ, dow = (int(x) for x in t[1:5])
         first = Pm.LocalDate._ctor(days_since_epoch=f)
@@ -203,10 +209,19 @@ def oracle(t):
         from pyoda_time import DateAdjusters
         if int(date.day_of_week) != ((d + 3) % 7) + 1:
             return {"key": "day-of-week", "what": f"day {d}: day_of_week {int(date.day_of_week)}"}
+        mnd, mxd = cal_info(cid)[4], cal_info(cid)[5]
+        cur = int(date.day_of_week)
+        exp = {"next": (tg - cur - 1) % 7 + 1, "previous": -((cur - tg - 1) % 7 + 1), "next_or_same": (tg - cur) % 7, "previous_or_same": -((cur - tg) % 7)}
         for name, fn, lo, hi in [("next", lambda: date.next(T), 1, 7), ("previous", lambda: date.previous(T), -7, -1),
                                  ("next_or_same", lambda: DateAdjusters.next_or_same(T)(date), 0, 6),
                                  ("previous_or_same", lambda: DateAdjusters.previous_or_same(T)(date), -6, 0)]:
-            r = fn()
+            inside = mnd <= d + exp[name] <= mxd
+            try:
+                r = fn()
+            except (OverflowError, ValueError) as e:
+                if inside:
+                    return {"key": "weekday-navigation-raises-in-range", "what": f"calendar {cid} day {d} (weekday {cur}) {name}({tg}) raised {type(e).__name__} although day {d + exp[name]} is inside the calendar"}
+                continue
             diff = r._days_since_epoch - d
             if not (lo <= diff <= hi) or int(r.day_of_week) != tg or r.calendar != c:
                 return {"key": "weekday-navigation-" + name, "what": f"calendar {cid} day {d} (weekday {int(date.day_of_week)}) {name}({tg}) moved {diff} days to weekday {int(r.day_of_week)}"}
@@ -277,10 +292,10 @@ def gen(ctx):
     for _ in range(ctx.scale(6000, 300000)):
         cid = rng.choice(cids)
         c, calc, mn, mx, mnd, mxd = cal_info(cid)
-        d = rng.choice([mnd + 7, mxd - 7, -3, -4, -2, 0, rng.randint(mnd + 7, mxd - 7), rng.randint(-10, 10)])
-        if not (mnd + 7 <= d <= mxd - 7):
+        d = rng.choice([mnd + rng.randint(0, 8), mxd - rng.randint(0, 8), -3, -4, -2, 0, rng.randint(mnd, mxd), rng.randint(-10, 10)])
+        if not (mnd <= d <= mxd):
             continue
-        line = f"wd.nav {d} {rng.randint(1, 7)}"
+        line = f"wd.nav {d} {rng.randint(1, 7)} {mnd} {mxd}"
         SIDE[line] = cid
         ops.append(line)
     # n-th weekday of month (ISO)
